@@ -234,6 +234,8 @@ def main(engine_name, argv=None):
                 f.cancel()
     agg['indices'][1] = next_index
     explore_s = time.time() - t0
+    if not harness_fail and not agg['harness'] and agg['runs'] == 0:
+        harness_fail = 'nothing could be explored (no universe compiled / no run completed): never a pass'
     if harness_fail or agg['harness']:
         print('HARNESS-FAILURE: %s' % (harness_fail or agg['harness'][0]), flush=True)
         _write_evidence(eng, prop, args, verif_seed, agg, time.time() - t0, explore_s, harness=True)
